@@ -15,7 +15,8 @@ for it in range(N):
     names = ["c%d" % i for i in range(n_sec)]
     mults = {n: float(rs.choice([1.0, 1.0, 10.0, 0.5, 100.0])) for n in names}
     nested = bool(rs.randint(2))
-    secs = [Security(n, multiplier=mults[n]) for n in names]
+    lazy_decl = bool(rs.randint(2))   # instruments declared up front but created on first use keep their multiplier
+    secs = [Security(n, multiplier=mults[n], lazy_add=lazy_decl and rs.rand() < 0.5) for n in names]
     if nested:
         k = max(1, n_sec // 2)
         sub = Strategy("sub", [], children=secs[:k])
@@ -102,6 +103,15 @@ for it in range(N):
     for n in closing:
         after = pos.loc[pos.index >= cutoffs.loc[n, "date"], n] if n in pos.columns else pd.Series(dtype=float)
         if len(after) and float(np.abs(after.to_numpy()).max()) != 0.0: bad("no-position-once-close-date-has-passed", security=n, close=str(cutoffs.loc[n, "date"]), positions=list(map(float, after.to_numpy())))
+    # a security that is flat when its close date passes must still be recorded: never opened afterwards through SelectActive
+    late = names[0]
+    sig = pd.DataFrame(True, index=dts2, columns=names); sig.loc[dts2[:5], late] = False
+    cut2 = pd.DataFrame({"date": pd.to_datetime([dts2[2]])}, index=[late])
+    s = Strategy("s", [A.ClosePositionsAfterDates("cutoffs"), A.SelectWhere("sig"), A.SelectActive(), A.WeighEqually(), A.Rebalance()], children=[Security(n) for n in names])
+    t = bt.Backtest(s, data, additional_data={"cutoffs": cut2, "sig": sig}, integer_positions=False, progress_bar=False)
+    t.run(); evals += 1
+    after = t.positions.loc[t.positions.index >= dts2[2], late] if late in t.positions.columns else pd.Series(dtype=float)
+    if len(after) and float(np.abs(after.to_numpy()).max()) != 0.0: bad("flat-security-past-its-close-date-is-never-opened", security=late, positions=list(map(float, after.to_numpy())))
     # roll: direct API, exact bookkeeping
     s = Strategy("s", [], children=[Security(n) for n in names])
     rolling = names[:2]
